@@ -601,6 +601,7 @@ def install_concurrency(it):
                     # thread runs to its end regardless, the task gets CancelledError at this await
                     kk2 = it4.ctx.choose([z3.BoolVal(True), z3.BoolVal(True)], labels=["completed", "cancelled-while-in-executor"], site="run_in_executor")
                     if kk2 == 1:
+                        g["cancel_delivered"] = True
                         raise PyRaise(ExcVal(asyncio.CancelledError, (), site="run_in_executor"))
                 return r
 
@@ -636,6 +637,7 @@ def install_concurrency(it):
             kk = it3.ctx.choose([z3.BoolVal(True), z3.BoolVal(True)], labels=["slept", "cancelled"], site="asyncio.sleep")
             g.setdefault("sleeps", []).append(a[0] if a else None)
             if kk == 1:
+                g["cancel_delivered"] = True
                 raise PyRaise(ExcVal(asyncio.CancelledError, (), site="asyncio.sleep"))
             return None
 
